@@ -313,6 +313,56 @@ class TileMetadata(Harness):
         return AND(tile.source is not None, tile.timestamp is not None, tile.timestamp == ts, tile.size == 1)
 
 
+class Uncacheable(Harness):
+    """an upstream answer marked not cacheable (error fill image with cache: false) stays so on its way through the tile
+    creator: never handed to the cache backend and returned with cacheable = False -- with and without a pre-store tile
+    filter that replaces the image (watermark), for the single-tile and the meta-tile path"""
+    modules = ['mapproxy.grid', 'mapproxy.cache.tile']
+    functions = ['TileCreator._create_single_tile', 'TileCreator._create_meta_tile', 'TileManager.apply_tile_filter', 'split_meta_tiles']
+
+    @classmethod
+    def build(cls, L, cfg):
+        from props import common, tmstub
+        t = L.mods['mapproxy.cache.tile']
+        t.__dict__['TileSplitter'] = tmstub.FakeSplitter
+        return dict(t=t, G=common.make_grid(L.mods['mapproxy.grid'], 'merc_ll'))
+
+    @classmethod
+    def inputs(cls, ctx, cfg):
+        return dict(cacheable=bool_var('upstream_image_cacheable'), filtered=bool_var('has_tile_filter'))
+
+    @classmethod
+    def native_inputs(cls, cex):
+        return {k: bool(v) for k, v in cex.items()}
+
+    @classmethod
+    def prop(cls, ctx, cfg, cacheable, filtered):
+        from props import tmstub
+        t, G = ctx['t'], ctx['G']
+        cb = bool(cacheable) if isinstance(cacheable, SymBool) else cacheable
+        fl = bool(filtered) if isinstance(filtered, SymBool) else filtered
+        ev = []
+
+        class Empty(tmstub.RecCache):
+            pass
+        cache = Empty(ev, {}, {})
+        src = tmstub.RecSource(ev, cacheable=cb)
+
+        def watermark(tile):
+            # like the watermark filter: a new image object takes the place of the upstream answer
+            tile.source = tmstub.Img(('filtered', tile.source.tag))
+            return tile
+        meta = cfg['mode'] == 'meta'
+        mgr = t.TileManager(G, cache, [src], 'png', tmstub.RecLocker(ev), meta_size=[2, 2] if meta else None, meta_buffer=0,
+                            pre_store_filter=[watermark] if fl else [])
+        c = (1, 1, 2)
+        tile = mgr.load_tile_coord(c)
+        stores = [e for e in ev if e[0] in ('store_tile', 'store_tiles')]
+        if cb:
+            return AND(len(stores) == 1, tile.source is not None)
+        return AND(len(stores) == 0, tile.source is not None, not tile.cacheable)
+
+
 CANARIES = [
     ('If-Modified-Since compared the wrong way round', {'mapproxy.response': [(
         "if timestamp is not None and self._timestamp <= timestamp:", "if timestamp is not None and self._timestamp >= timestamp:")]},
@@ -374,6 +424,9 @@ def obligations(tier, seed):
     # mtime/size say nothing about when this tile was (re)written
     for via in ('load_tile_metadata', 'load_tile'):
         specs.append(spec('props.C13_expiry', 'FileTimestamp', 'validators-from-the-tile-entry-not-the-link-target/%s' % via, cfg=dict(via=via)))
+    for mode in ('single', 'meta'):
+        specs.append(spec(MOD, 'Uncacheable', 'uncacheable-image-is-never-stored/%s' % mode, cfg=dict(mode=mode)))
+    specs.append(spec(MOD, 'Uncacheable', 'twin/Uncacheable', kind='witness', cfg=dict(mode='single')))
     specs.append(dict(name='stub-contract/httpdate', module=MOD, func='selfcheck_httpdate', kind='holds', args={}, cost=1))
     specs.append(spec(MOD, 'CondHarness', 'twin/CondHarness', kind='witness', cfg=dict(service='wmts', inm='current', ims='date', max_age=3600)))
     for label, patches, c in (CANARIES if tier == 'thorough' else CANARIES[:4]):
@@ -390,7 +443,7 @@ META = dict(
                 '304 with empty body and no Content-type; 304 only if the ETag matches the tile as stored or '
                 'If-Modified-Since >= its timestamp; after a rewrite the old ETag yields 200 (and a rewrite in the SQLite backends records the time of the rewrite, whatever timestamp the tile object carried); uncacheable tiles get '
                 'no-store, no validators and never 304 -- for every tile service.',
-    functions=CondHarness.functions + ['MBTilesCache._store_bulk', 'TileManager._load_tile_coords', 'FileCache.load_tile_metadata', 'FileCache.load_tile'],
+    functions=CondHarness.functions + Uncacheable.functions + ['MBTilesCache._store_bulk', 'TileManager._load_tile_coords', 'FileCache.load_tile_metadata', 'FileCache.load_tile'],
     bounds='timestamps >= 1 (reals), sizes >= 0, If-Modified-Since any whole second >= 0; header kinds enumerated '
            '(absent / current / other tile version / malformed)',
     outside='WMS-C: layer rendering/merging (stub merger hands the tile cache info through), real HTTP date parsing beyond the stated contract; md5',
